@@ -207,7 +207,7 @@ def gen_list(rng):
             items.append(('cont', rng.choice(['', ' ', '\t']), rng.choice(['', ' ', '  '])))
         else:
             t = gen_token(rng, allow_nl=rng.chance(0.15))
-            if render_tok(t) == ')':
+            if t[0][0] == 'N' and chars_tok(t) == ')':
                 t = [('S', ')')]
             items.append(('tok', t, rng.choice(SEPS_LINE)))
     paren = rng.choice(['', ' x y', ' ', ' )']) if rng.chance(0.15) else None
